@@ -43,7 +43,7 @@ def _dims(d, tier):
             "M": [[3, 3], [1, 1], [2, 2], [4, 4], [1, 3]] + ([[5, 5]] if tier == "thorough" else []),
             "torus": [[True, True], [False, False], [True, False], [False, True]],
             "pad": [None, "TORUS", "SAME", "VALID", 1, [[1, 1], [2, 2]]],
-            "rhs": [1, 2, [1, 2]],
+            "rhs": [1, 2, [1, 2], 3, [3, 1]],
             "lhs": [None, [2, 2], [2, 1]],
         }
     return {
@@ -53,7 +53,7 @@ def _dims(d, tier):
         "M": [[3, 3, 3], [1, 1, 1], [2, 2, 2], [1, 3, 2]],
         "torus": [[True, True, True], [False, False, False], [True, False, False], [False, True, True]],
         "pad": [None, "TORUS", "SAME", "VALID", 1, [[1, 1], [2, 2], [0, 0]]],
-        "rhs": [1, 2, [1, 2, 1]],
+        "rhs": [1, 2, [1, 2, 1], 3],
         "lhs": [None, [2, 2, 2], [1, 2, 1]],
     }
 
